@@ -138,7 +138,9 @@ func compareVersionParts(a, b []string) int {
 
 		// Compare parts using natural ordering
 		if aPart != bPart {
-			return naturalCompare(aPart, bPart)
+			if result := naturalCompare(aPart, bPart); result != 0 {
+				return result
+			}
 		}
 	}
 
